@@ -116,4 +116,15 @@ PROPS = {
         'slice': [r'tok\.send\.unbond', r'tok\.sendfrom\.unbond', r'hub\.withdraw', r'hub\.receive', r'env\.advance'],
         'explanation': 'claim-sum invariant proved over unbond (both tokens), batch closing, release and withdrawal; on the implementation the sum of UnbondRequests over all users per batch is compared with CurrentBatch / AllHistory after every step, with Send and SendFrom, both tokens in one batch, across epoch boundaries',
     },
+    'C08': {
+        'families': [gen('release', 35, 120), gen('mixed', 20, 120), gen('dust', 10, 120)],
+        'slice': [r'tok\.send\.unbond', r'tok\.sendfrom\.unbond', r'hub\.withdraw', r'env\.advance', r'hub\.uparams'],
+        'explanation': 'epoch gate, single write of consecutive batch ids, release only after the unbonding period, finality of released entries proved on the model; AllHistory snapshots compared between all steps with time advances landing on, one before and one after the epoch and maturity boundaries',
+    },
+    'C01': {
+        'corpus': ['D1.ops', 'D5.ops'],
+        'families': [gen('release', 40, 120, deep=True), gen('dust', 20, 120, deep=True), gen('mixed', 15, 120)],
+        'slice': [r'hub\.withdraw', r'env\.advance', r'env\.slashu', r'env\.donate', r'tok\.send\.unbond', r'tok\.sendfrom\.unbond'],
+        'explanation': 'payout = recorded share, single payment, order independence and the single-batch allocation bound proved; release groups of many batches with slashed unbonding stake, donations, many users per batch: released claims vs hub balance after every step, payout recomputed, second withdrawal, unfunded-claim probe (clone with extra coins)',
+    },
 }
